@@ -63,10 +63,27 @@ func (w *world) roundTripAll() []given {
 			// empty, non-nil frame slice - still "no stack" for every renderer
 			var top map[string]json.RawMessage
 			if json.Unmarshal(b, &top) == nil {
-				if _, has := top["stack"]; !has {
+				if raw, has := top["stack"]; !has {
 					top["stack"] = json.RawMessage("[]")
 					if b2, err := json.Marshal(top); err == nil {
 						b = b2
+					}
+				} else {
+					// ... and a payload may carry frames without a file or without a function name
+					// (other producers, stripped binaries): they are frames like any other
+					var frames []json.RawMessage
+					if json.Unmarshal(raw, &frames) == nil && len(frames) > 0 {
+						extra := []json.RawMessage{json.RawMessage(`{"func":"restored.nofile","file":"","line":0}`), json.RawMessage(`{"func":"","file":"nofunc.go","line":7}`)}
+						frames = append(frames[:1], append(extra, frames[1:]...)...)
+						if len(out)%2 == 1 { // every other restored error: such a frame is the head frame
+							frames = append(extra[:1:1], frames...)
+						}
+						if fb, err := json.Marshal(frames); err == nil {
+							top["stack"] = fb
+							if b2, err := json.Marshal(top); err == nil {
+								b = b2
+							}
+						}
 					}
 				}
 			}
@@ -175,4 +192,27 @@ func givenCoq(gs []given) string {
 		cs = append(cs, g.Coq)
 	}
 	return cList(cs)
+}
+
+// renderCorpus: small fixed programs the renderer checks (C08 C18 C19) always run before the
+// generated ones - minimised inputs of earlier failures and of seeded changes that the random
+// programs of one seed do not always contain
+func renderCorpus() [][]PStmt {
+	skip := POpt{T: "skip", N: 1000}
+	field := POpt{T: "field", Key: 0, Val: 22}
+	return [][]PStmt{
+		// a stack object with zero frames (StackSkip beyond the call depth): "no stack" for every view
+		{{T: "define", Kind: "k1", Opts: []POpt{skip}}, {T: "new", F: 0, Msg: "m1"}},
+		{{T: "define", Kind: "k1"}, {T: "withopts", D: 0, Opts: []POpt{skip}}, {T: "new", F: 0, Msg: "inner"}, {T: "wrap", F: 1, C: ip(0)}},
+		{{T: "define", Kind: "k1"}, {T: "ctx", Opts: []POpt{skip}}, {T: "with", D: 0, Ctx: ip(0)}, {T: "new", F: 1, Msg: "m1"}},
+		// a single-frame stack
+		{{T: "define", Kind: "k1", Opts: []POpt{{T: "depth", N: 1}}}, {T: "new", F: 0, Msg: "m1"}},
+		{{T: "define", Kind: "k1"}, {T: "withopts", D: 0, Opts: []POpt{{T: "depth", N: 1}, field}}, {T: "new", F: 1, Msg: "m1"}},
+		// presenters survive derivation, and act on a nested cause of their definition
+		{{T: "define", Kind: "k1", Opts: []POpt{{T: "json", ID: 1}, {T: "fmt", ID: 2}, {T: "log", ID: 3}, {T: "notrace"}}},
+			{T: "withopts", D: 0, Opts: []POpt{field}}, {T: "new", F: 1, Msg: "derived"},
+			{T: "define", Kind: "k2", Opts: []POpt{{T: "notrace"}}}, {T: "wrap", F: 2, C: ip(0)}, {T: "join", F: 2, Cs: []*int{ip(0), nil, ip(1)}}},
+		{{T: "define", Kind: "k1", Opts: []POpt{{T: "json", ID: 1}, {T: "notrace"}}}, {T: "ctx", Opts: []POpt{field}}, {T: "with", D: 0, Ctx: ip(0)},
+			{T: "new", F: 1, Msg: "via context"}, {T: "define", Kind: "k2", Opts: []POpt{{T: "notrace"}}}, {T: "wrap", F: 2, C: ip(0)}},
+	}
 }
